@@ -1,5 +1,7 @@
 import FordModel.Proto
 import FordModel.ProjectLoop
+import FordModel.EnumValues
+import FordModel.IncludeNest
 namespace Ford
 open Proto
 
@@ -76,6 +78,38 @@ def showState (st : ProjState) (names : List NameKey) : List Str :=
    match st.aborted with | some (n, e) => n ++ '=' :: errName e | none => [],
    'N' :: '=' :: showNames names]
 
+/-- enumerators of one ENUM block: pairs of fields, name and `~` (no value) or `=` ++ the text after `=` -/
+def enumeratorsOf : List Str → List EnumValues.Enumerator
+  | n :: i :: rest =>
+    { name := n, initial := (match i with | '=' :: t => some t | _ => none) } :: enumeratorsOf rest
+  | _ => []
+
+def showInt (i : Int) : Str := (toString i).toList
+
+def showEnum (es : List EnumValues.Enumerator) : List Str :=
+  match EnumValues.enumCleanup es with
+  | .ok vs => ["ok".toList, "values".toList, commaJoin (vs.map showInt)]
+  | .error n => ["ok".toList, "raised".toList, n]
+
+def splitComma : Str → Str → List Str
+  | [], cur => [cur.reverse]
+  | c :: cs, cur => if c == ',' then cur.reverse :: splitComma cs [] else splitComma cs (c :: cur)
+
+def pathOf (s : Str) : IncludeNest.Path := IncludeNest.joinPath [] s
+def showPath (p : IncludeNest.Path) : Str := '/' :: joinSep '/' p
+
+/-- one file: path, `U` | `R` | `I`, items -/
+def incFileOf : List Str → Option (IncludeNest.Path × IncludeNest.FileBody)
+  | p :: k :: its =>
+    some (pathOf p, if k == ['U'] then .undecodable else if k == ['R'] then .refusedAfter its else .items its)
+  | _ => none
+
+def showIncErr : IncludeNest.IncErr → List Str
+  | .missing n => ["missing".toList, n]
+  | .undecodable f => ["undecodable".toList, showPath f]
+  | .refused f => ["refused".toList, showPath f]
+  | .recursion => ["recursion".toList]
+
 end C20D
 
 open C20D in
@@ -84,6 +118,28 @@ def dispatchC20 : List Str → Option (List Str)
     if cmd == "c20.parse".toList then
       match args with
       | d :: f :: r :: rest => some (showOutcome (parseFile (cfgOf d f r) (stmtsOf rest)))
+      | _ => some ["bad-request".toList]
+    else if cmd == "c20.enum".toList then
+      -- one ENUM block -> the values `_cleanup` works out | the enumerator it raises for
+      some (showEnum (enumeratorsOf args))
+    else if cmd == "c20.parseenums".toList then
+      -- cfg, statements | enumerators of the 1st ENUM block | of the 2nd ... -> outcome of the file's constructor
+      match args with
+      | d :: f :: r :: rest =>
+        match splitBar rest [] with
+        | ss :: enums => some (showOutcome (EnumValues.fileWithEnums (parseFile (cfgOf d f r) (stmtsOf ss))
+                                 ((enums.filter (fun l => !l.isEmpty)).map enumeratorsOf)))
+        | [] => some ["bad-request".toList]
+      | _ => some ["bad-request".toList]
+    else if cmd == "c20.include".toList then
+      -- depth, top file, inc_dirs (comma separated) | file | file ...  ->  items | error
+      match splitBar args [] with
+      | (d :: top :: dirs) :: files =>
+        let fs := files.filterMap incFileOf
+        let incDirs := ((splitComma (dirs.headD []) []).filter (fun x => !x.isEmpty)).map pathOf
+        match IncludeNest.readFile fs incDirs (natOf d) (pathOf top) with
+        | .ok its => some ("ok".toList :: "items".toList :: its)
+        | .error e => some ("ok".toList :: "error".toList :: showIncErr e)
       | _ => some ["bad-request".toList]
     else if cmd == "c20.row".toList then
       match args with
